@@ -1,4 +1,5 @@
 import Dawgs.Props.C09
+import Dawgs.Props.C12
 import Dawgs.Props.C16
 import Dawgs.Props.C16Conc
 import Dawgs.Props.C16Locks
